@@ -126,7 +126,10 @@ func TestSlowSubscriber(t *testing.T) {
 		deadline := time.Now().Add(2 * time.Second)
 		for !blocked.Load() {
 			if time.Now().After(deadline) {
-				t.Fatalf("inconclusive: no heartbeat notification within 2 s")
+				// the machine is too busy to let a 100 ms heartbeat tick within 2 s: not judged
+				armed.Store(false)
+				world.Record(world.Hash("slow-subscriber-discarded", stallPeriods, how), false, "slow-subscriber/discarded-no-tick-within-2s")
+				return
 			}
 			time.Sleep(time.Millisecond)
 		}
